@@ -182,4 +182,137 @@ SeqCase ==
                       likfd |-> [lik |-> SeqOutcomeOf([lik |-> TRUE, post |-> FALSE], "lik"), post |-> SeqOutcomeOf([lik |-> TRUE, post |-> FALSE], "post")],
                       postfd |-> [lik |-> SeqOutcomeOf([lik |-> FALSE, post |-> TRUE], "lik"), post |-> SeqOutcomeOf([lik |-> FALSE, post |-> TRUE], "post")]]]
 SeqEmit == (Emit /\ c.cached = <<>> /\ ~c.fd.lik /\ ~c.fd.post) => PrintT("@@CASE " \o ToJson(SeqCase) \o " @@END")
+
+\* ======================================================================================================================
+\* Part `Siblings` (round 5): TWO conditioned copies of ONE conditional object, alive at the same time
+\* ======================================================================================================================
+\* A conditional distribution O (some parameters are callables of conditioning variables) is conditioned twice,
+\*       A = O(values of the first configuration),   B = O(values of the second configuration),
+\* and both results are kept.  Conditioning makes a (shallow) copy, so whatever the copies derive from their parameters
+\* (scaled operators, factorisations, normalising constants ...) must belong to the copy that derived it: evaluating A, B, A
+\* again, in any interleaving and interleaved with uses of the unconditioned original O, each answer is that of the
+\* evaluated object's OWN configuration.  The pair of configurations is a pair of the part `Reassign` of module Families
+\* (start configuration, configuration after the units of a prefix of an assignment order were replaced - the units that are
+\* callables of O); the exact answers of both are the cases `from` / `trail[n].expect` emitted there.  This part supplies the
+\* BEHAVIOURS: every interleaving of Condition(A), Condition(B), at most MaxSibEvals evaluations and at most one use of the
+\* original.  Abstract state:
+\*     live     the conditioned copies made so far
+\*     der      per copy: the configuration ("A" | "B") its derived quantities were computed from, or "none"
+\*     shared   (deviation only) ONE slot for derived quantities that all copies of O see
+\*     last     <<>> or <<evaluated copy, configuration the answer was computed from>>
+\*     hist     the operations so far (emitted)
+\* Invariant SibOwnAnswer: the answer of a copy is computed from its own configuration.  Named deviation DevSharedDerived
+\* (FamiliesSeq.siblings_shared.deviation.cfg): the copies share the slot - the first evaluation after the last Condition fills
+\* it, later evaluations of either copy use it; TLC must refute SibOwnAnswer (Condition A, Condition B, Evaluate A, Evaluate B).
+CONSTANTS DevSharedDerived,        \* named deviation; FALSE in the deciding configurations
+          MaxSibEvals              \* evaluations per behaviour
+
+SibObjs == {"A", "B"}
+SibInit == c = [part |-> "sib", live |-> {}, der |-> [w \in SibObjs |-> "none"], shared |-> "none", last |-> <<>>,
+                hist |-> <<>>, nev |-> 0, npr |-> 0]
+SibCondition(w) ==
+    /\ w \notin c.live
+    /\ c' = [c EXCEPT !.live = @ \cup {w}, !.der[w] = "none", !.last = <<>>,
+                      !.shared = "none",          \* (deviation: the setters of the new copy empty the slot they share)
+                      !.hist = Append(@, [op |-> "condition", who |-> w])]
+SibEvaluate(w) ==
+    /\ w \in c.live
+    /\ c.nev < MaxSibEvals
+    /\ LET used == IF DevSharedDerived /\ c.shared # "none" THEN c.shared ELSE w
+       IN c' = [c EXCEPT !.der[w] = used, !.last = <<w, used>>, !.nev = @ + 1,
+                         !.shared = IF DevSharedDerived THEN used ELSE @,
+                         !.hist = Append(@, [op |-> "evaluate", who |-> w])]
+SibOriginal ==                       \* the unconditioned original is used (evaluation attempted / conditioning variables listed)
+    /\ c.npr < 1
+    /\ c' = [c EXCEPT !.npr = @ + 1, !.last = <<>>, !.hist = Append(@, [op |-> "original", who |-> "O"])]
+SibNext == (\E w \in SibObjs : SibCondition(w) \/ SibEvaluate(w)) \/ SibOriginal
+
+SibOwnAnswer == c.last # <<>> => c.last[2] = c.last[1]
+SibDerivedOwn == \A w \in SibObjs : c.der[w] \in {"none", w}
+SibTerminal == c.live = SibObjs /\ c.nev = MaxSibEvals
+SibEmit == (Emit /\ SibTerminal) => PrintT("@@CASE " \o ToJson([kind |-> "sibwalk", ops |-> c.hist]) \o " @@END")
+
+\* ======================================================================================================================
+\* Part `Points` (round 5): the evaluation point of a ONE-dimensional density in every admissible container
+\* ======================================================================================================================
+\* The gradient of a density of dimension 1 is one number per evaluation point, whatever object carries the point: a python
+\* float, a numpy scalar, a 0-d array, a 1-element array, a 1-element list, a CUQIarray (PtKinds).  For every container the
+\* decision is that of the table GradOutcome (a container the implementation does not accept is REFUSED: observation) and a
+\* returned value is THE derivative - analytic, or at finite-difference accuracy with enable_FD() - at points of magnitude
+\* below AND above one (a step or a tolerance relative to |x| must not leak into the value).
+\* Configurations: every family with dimension-1 instances over the WHOLE lattice of evaluation offsets (the quick lattice of
+\* the main part uses the first two offsets only), likelihood / posterior / multiple-likelihood posterior of the one-parameter
+\* models at PtLikX, and the posterior of a scalar hyper-parameter s ~ Gamma(a, b), y | s ~ Gaussian(0, s I) (no analytic
+\* gradient anywhere: finite differences are the documented way).
+PtKinds == <<"float", "npscalar", "zerod", "array1", "list1", "cuqiarray">>
+PtFams  == {"Normal", "Gaussian", "Laplace", "SmoothedLaplace", "Cauchy", "Gamma", "InverseGamma", "Beta", "Lognormal",
+            "Uniform", "ModifiedHalfNormal"}
+PtNoLarge == {"Beta"}                \* support inside the unit interval: no point of magnitude above one
+PtXLen(fam) == CASE fam \in {"Normal", "Laplace", "Gaussian"} -> Len(LOff)
+                 [] fam = "SmoothedLaplace" -> Len(LSL1)
+                 [] fam = "Cauchy" -> Len(LCauU)
+                 [] fam \in {"Gamma", "InverseGamma"} -> Len(LPosX)
+                 [] fam \in {"Beta", "Uniform"} -> Len(LUnit)
+                 [] fam = "Lognormal" -> Len(LK)
+                 [] OTHER -> 3
+PtThree == {"SmoothedLaplace", "InverseGamma", "ModifiedHalfNormal", "Gaussian", "Lognormal"}     \* families with a third index
+PtConfigs(fam) == { Cfg(fam, 1, a, b, g, x, 0) : a \in 1..2, b \in (IF fam \in {"Gaussian", "Lognormal"} THEN {1} ELSE 1..2),
+                                                g \in (IF fam \in PtThree THEN 1..2 ELSE {1}), x \in 1..PtXLen(fam) }
+PtMagOf(q) == IF RLt(RAbs(q), One) THEN "small" ELSE IF RLt(One, RAbs(q)) THEN "large" ELSE "one"
+PtSmooth(cs) == IF "smooth" \in DOMAIN cs THEN cs.smooth ELSE TRUE
+\* likelihoods / posteriors of the one-parameter models: points
+PtLikX == <<Half, Q(3, 2), R(-2), Q(-1, 4)>>
+PtLikBases == { b \in SeqBases : b.n = 1 /\ b.pk = 1 /\ b.x = 1 }
+PtLikVers(b) == {SeqVer1} \cup (IF b.mk = "matrix" THEN {[SeqVer1 EXCEPT !["geom"] = 2]} ELSE {})
+\* hyper-parameter posterior: s ~ Gamma(a, b),  y | s ~ Gaussian(0, s I_2),  data y = (1, -2)
+PtHypS == <<Half, Q(3, 2), R(2), R(4), Q(1, 4)>>
+PtHypY == <<R(1), R(-2)>>
+PtHypLogpost(a, b, s) ==
+    SLAdd(GammaLogpdf(<<R(a)>>, <<b>>, <<s>>),
+          GaussLogpdf(VZero(2), <<MDiag(<<RInv(s), RInv(s)>>), SLScale(R(2), SLLog(s)), 2>>, PtHypY))
+\* d/ds [ (a-1) log s - b s - (d/2) log s - |y|^2 / (2 s) ]
+PtHypGrad(a, b, s) ==
+    RAdd(RSub(RDiv(RSub(R(a), One), s), b), RAdd(RNeg(RDiv(One, s)), RDiv(Dot(PtHypY, PtHypY), RMul(R(2), RSq(s)))))
+PtHypOutcome(fd) == IF fd THEN "ValueFD" ELSE "Refused"          \* Gamma has no analytic gradient
+
+PtInit == c \in UNION { {[part |-> "pt", k |-> k] : k \in UNION {PtConfigs(f) : f \in Fams \cap PtFams}},
+                        UNION {{[part |-> "ptlik", b |-> b, ver |-> v, xi |-> i] : v \in PtLikVers(b), i \in 1..Len(PtLikX)} : b \in PtLikBases},
+                        {[part |-> "pthyp", a |-> a, bi |-> bi, si |-> i] : a \in 2..3, bi \in 1..2, i \in 1..Len(PtHypS)} }
+PtNext == UNCHANGED c
+
+\* both magnitudes exist for every family whose support admits them (evaluated once per family, at its first configuration)
+PtMagnitudes ==
+    (c.part = "pt" /\ c.k.a = 1 /\ c.k.b = 1 /\ c.k.g = 1 /\ c.k.x = 1) =>
+      LET mags == {PtMagOf(CaseOf(k).x[1]) : k \in {q \in PtConfigs(c.k.fam) : CaseOf(q).inside}}
+      IN "small" \in mags /\ (c.k.fam \notin PtNoLarge => "large" \in mags)
+\* the decision does not depend on the container: one table row per (family, FD flag), listed for every container kind
+PtOutcome == c.part = "pt" => \A fd \in BOOLEAN : GradOutcome(c.k.fam, FALSE, "identity", fd) \in Outcomes
+\* hyper-parameter posterior: the hand-derived derivative is that of the spec's log-density, as the polynomial identity
+\*   s^2 g(s) = (a - 1 - d/2) s - b s^2 + |y|^2 / 2     and the spec density differs between two points by exactly the log terms
+PtHypIdentity ==
+    c.part = "pthyp" =>
+      LET s == PtHypS[c.si]  b == LRate[c.bi]
+      IN RMul(RSq(s), PtHypGrad(c.a, b, s)) =
+           RAdd(RSub(RMul(RSub(R(c.a), R(2)), s), RMul(b, RSq(s))), RDiv(Dot(PtHypY, PtHypY), R(2)))
+
+PtEmit ==
+    Emit =>
+      PrintT("@@CASE " \o ToJson(
+        CASE c.part = "pt" ->
+               LET cs == CaseOf(c.k)
+               IN [kind |-> "point", mag |-> PtMagOf(cs.x[1]), kinds |-> PtKinds,
+                   outcome |-> [fd \in {"off", "on"} |-> GradOutcome(c.k.fam, FALSE, "identity", fd = "on")]] @@ cs
+          [] c.part = "ptlik" ->
+               LET b == c.b  x == <<PtLikX[c.xi]>>  p == SeqParts(b, c.ver, x)
+               IN [kind |-> "ptlik", fam |-> "Lik", dim |-> 1, base |-> b, ver |-> c.ver, mag |-> PtMagOf(x[1]), kinds |-> PtKinds,
+                   A |-> LA(b.n, b.a), B |-> LB(LA(b.n, b.a)), mk0 |-> b.mk, mk |-> p.mk,
+                   lam |-> p.lam, lamscal |-> p.lamscal, logy |-> p.y, x |-> x,
+                   prior |-> [kind |-> "Gaussian", mean |-> p.pmean],
+                   loglik |-> p.loglik, gradlik |-> p.gradlik, logpost |-> p.logpost, gradpost |-> p.gradpost,
+                   y2 |-> p.y2, loglik2 |-> p.loglik2, gradlik2 |-> p.gradlik2]
+          [] OTHER ->
+               LET s == PtHypS[c.si]  b == LRate[c.bi]
+               IN [kind |-> "pthyp", fam |-> "HyperPosterior", dim |-> 1, shape |-> R(c.a), rate |-> b, y |-> PtHypY, x |-> <<s>>,
+                   mag |-> PtMagOf(s), kinds |-> PtKinds, logpost |-> PtHypLogpost(c.a, b, s), grad |-> <<PtHypGrad(c.a, b, s)>>,
+                   outcome |-> [fd \in {"off", "on"} |-> PtHypOutcome(fd = "on")]]) \o " @@END")
 =============================================================================
